@@ -6,4 +6,7 @@ open A2l.Lex
 #print axioms err_line_pos
 #print axioms Bnd.isCharBoundary
 #print axioms lex_boundaries
+#print axioms lex_line_pos
+#print axioms lex_comment_lines
+#print axioms countNewlines_eq
 #print axioms pinned_a2ml_panics
